@@ -3956,3 +3956,53 @@ def c02_settling_echo_covers_all(env):
 
 
 REGISTRY.setdefault("C02", []).append(c02_settling_echo_covers_all)
+
+
+def c02_receiver_runs_share_a_settle_mode(env):
+    o = Obligation("c02_batched_dispositions_do_not_mix_settle_modes", "C02")
+    o.desc = "receiver_link::consecutive_chunk_indices (Receiver::accept_all / reject_all / ...: one disposition per run, its `settled` flag taken from the run's first delivery): two neighbouring deliveries stay in one run only if their ids are consecutive AND their rcv-settle-mode (a transfer may override the link's) is the same -- otherwise a delivery that is to be settled second would be settled by the receiver on its own (or one to be settled first would be left unsettled)"
+    fn = env.fn(r"^receiver_link::consecutive_chunk_indices::\{closure#0\}$")
+    o.functions = [fn.name]
+    o.bounds = ["one call of the window test; every index; both comparisons may go either way"]
+    o.assumes = ["windows(2) hands the test every neighbouring pair; Option<ReceiverSettleMode> equality is structural (derive)"]
+    ex = env.executor(max_visits=3)
+    consecutive, same_mode = z3.Bool("ids_are_consecutive"), z3.Bool("settle_modes_are_equal")
+    called = []
+
+    def m_cons(ex_, st, callee, args, argvals, dty):
+        called.append("cons")
+        return consecutive
+
+    def m_eq(ex_, st, callee, args, argvals, dty):
+        called.append("eq")
+        return same_mode
+
+    ex.models = [(r"(^|::)is_consecutive$", m_cons), (r"^<(std::option::)?Option<.*ReceiverSettleMode> as PartialEq>::(eq|ne)$", m_eq)]
+    idx = z3.BitVec("window.index", 64)
+    arg = mir.Agg("(usize, &[DeliveryInfo])")
+    arg[0] = idx
+    sl = mir.Agg("window")
+    sl["#len"] = z3.BitVecVal(2, 64)
+    arg[1] = mir.Ref(("@window",), False)
+    paths = ex.run(fn, {"_1": mir.Ref(("@closure",), True), "@closure": mir.Agg("closure"), "_2": arg, "@window": sl})
+    hyp = ex.assumptions
+
+    def replay(m):
+        return "scn mixed_settle_modes", (lambda js: js.get("panic") or not js["second_mode_delivery_left_unsettled"])
+
+    n = 0
+    for i, p in enumerate(paths):
+        if p.end != "return" or not isinstance(p.ret, mir.Agg) or "#d" not in p.ret:
+            continue
+        n += 1
+        H = hyp + p.cond
+        o.prove(f"path{i}:one-run-only-if-consecutive-and-same-mode", H + [p.ret["#d"] == 0], z3.And(consecutive, same_mode), replay=replay)
+        o.prove(f"path{i}:otherwise-a-new-run-starts-at-the-second-delivery", H + [z3.Not(z3.And(consecutive, same_mode))], p.ret["#d"] == 1, replay=replay)
+        sm = p.ret.get(("as", "Some"))
+        if isinstance(sm, mir.Agg) and 0 in sm and z3.is_bv(sm[0]):
+            o.prove(f"path{i}:the-boundary-is-the-second-delivery", H + [p.ret["#d"] == 1], sm[0] == idx + 1, replay=replay)
+    o.cover("paths", [z3.BoolVal(n > 1)])
+    return [o]
+
+
+REGISTRY.setdefault("C02", []).append(c02_receiver_runs_share_a_settle_mode)
